@@ -675,7 +675,7 @@ class Ctx:
         return Fraction(0)
       if fn == 'logistic' and a == 0:
         return Fraction(1, 2)
-    F = self.uf(fn, 1)
+    F = self.uf('fx_' + fn, 1)      # (plain names such as `exp` are reserved theory symbols in cvc5)
     t = F(zreal(a))
     if fn == 'exp':
       declare_sign(t, 'pos')
@@ -1657,6 +1657,45 @@ def explore(fn, abstract_args, sym_args, ctx_factory=Ctx, max_paths=64, max_dept
 # --------------------------------------------------------------------------------------
 # solving
 # --------------------------------------------------------------------------------------
+CROSS = {'budget': 0, 'checked': 0, 'agree': 0, 'unknown': 0, 'disagree': 0, 'errors': 0, 'examples': []}
+
+
+def cvc5_crosscheck(solver, z3_verdict):
+  """Second opinion from cvc5 (binary, SMT-LIB2 text) on a query z3 has decided; 'unknown'/timeouts are not disagreements."""
+  import os
+  import subprocess
+  import tempfile
+  if CROSS['budget'] <= CROSS['checked']:
+    return
+  CROSS['checked'] += 1
+  text = '(set-logic ALL)\n' + solver.to_smt2()
+  fd, path = tempfile.mkstemp(suffix='.smt2', prefix='vf_cc_')
+  try:
+    with os.fdopen(fd, 'w') as f:
+      f.write(text)
+    try:
+      r = subprocess.run(['cvc5', '--tlimit=10000', path], capture_output=True, text=True, timeout=20)
+      out = (r.stdout + r.stderr).strip().splitlines()
+      verdict = out[0].strip() if out else 'unknown'
+    except subprocess.TimeoutExpired:
+      verdict = 'unknown'
+    if verdict not in ('sat', 'unsat'):
+      if '(error' in verdict or 'error' in verdict.lower():
+        CROSS['errors'] += 1
+      else:
+        CROSS['unknown'] += 1
+    elif verdict == z3_verdict:
+      CROSS['agree'] += 1
+    else:
+      CROSS['disagree'] += 1
+      CROSS['examples'].append(text[:2000])
+  finally:
+    try:
+      os.remove(path)
+    except OSError:
+      pass
+
+
 def check_sat(constraints, timeout_s=20.0):
   """Returns ('sat', model) | ('unsat', None) | ('unknown', reason)."""
   cs = []
@@ -1670,8 +1709,10 @@ def check_sat(constraints, timeout_s=20.0):
   s.add(*cs)
   r = s.check()
   if r == z3.sat:
+    cvc5_crosscheck(s, 'sat')
     return 'sat', s.model()
   if r == z3.unsat:
+    cvc5_crosscheck(s, 'unsat')
     return 'unsat', None
   return 'unknown', s.reason_unknown()
 
